@@ -36,10 +36,10 @@ func accessPath(v ssa.Value, d int) string {
 		return fmt.Sprintf("local:%s#%d", x.Comment, x.Pos())
 	case *ssa.FieldAddr:
 		f := FieldOf(x)
-		return accessPath(x.X, d+1) + "." + f.Name()
+		return accessPath(x.X, d+1) + "." + FName(f)
 	case *ssa.Field:
 		f := FieldOf(x)
-		return accessPath(x.X, d+1) + "." + f.Name()
+		return accessPath(x.X, d+1) + "." + FName(f)
 	case *ssa.UnOp:
 		if x.Op == token.MUL {
 			// load: the path of the loaded value is the path of the address
@@ -135,7 +135,7 @@ func lockClass(v ssa.Value) (class, base string) {
 		if n, ok := t.(*types.Named); ok {
 			owner = n.Obj().Name()
 		}
-		return owner + "." + f.Name(), AccessPath(x.X)
+		return owner + "." + FName(f), AccessPath(x.X)
 	case *ssa.Alloc:
 		return "local:" + x.Comment, AccessPath(x)
 	case *ssa.FreeVar:
@@ -810,3 +810,6 @@ func SingleStore(al *ssa.Alloc) ssa.Value {
 	}
 	return nil
 }
+
+// LockOpOf exports lockOpOf.
+func LockOpOf(in ssa.Instruction) *LockOp { return lockOpOf(in) }
